@@ -33,7 +33,42 @@ pub(crate) struct Env {
 }
 
 /// (status, stdout): status `ok` (exit 0), `panic` (exit 101), `err` (any other exit code), `killed`.
+/// Every file a program is about to write exists already and is longer than what it will write (the leftovers of an earlier
+/// run): a program must replace its output files, not overwrite their beginning.
+fn stale_outputs(env: &Env, name: &str, args: &[String]) {
+    let junk = vec![0xabu8; 1 << 20];
+    let after = |flag: &str| -> Option<String> { args.iter().position(|a| a == flag).and_then(|i| args.get(i + 1)).cloned() };
+    let mut outs: Vec<String> = vec![];
+    match name {
+        "compile" | "map" | "train" => outs.extend(after("-o")),
+        "reorder" => {
+            if let Some(pfx) = after("-o") {
+                outs.extend([format!("{pfx}.lmap"), format!("{pfx}.rmap")]);
+            }
+        }
+        "dictgen" => {
+            outs.extend(after("-l"));
+            outs.extend(after("-u"));
+            outs.extend(after("-m"));
+            if let Some(o) = after("--user-lexicon-out") {
+                if Some(&o) != after("--user-lexicon-in").as_ref() {
+                    outs.push(o);
+                }
+            }
+            if let Some(pfx) = after("--conn-id-info-out") {
+                outs.extend([format!("{pfx}.left"), format!("{pfx}.right"), format!("{pfx}.cost")]);
+            }
+        }
+        _ => {}
+    }
+    for o in outs {
+        let _ = std::fs::write(&o, &junk);
+    }
+    let _ = env;
+}
+
 pub(crate) fn run_bin(env: &Env, name: &str, args: &[String], stdin: Option<&[u8]>) -> (&'static str, Vec<u8>) {
+    stale_outputs(env, name, args);
     let mut cmd = Command::new(env.bin.join(name));
     cmd.args(args).current_dir(&env.work).stderr(Stdio::null()).stdout(Stdio::piped());
     cmd.stdin(if stdin.is_some() { Stdio::piped() } else { Stdio::null() });
@@ -583,6 +618,7 @@ pub fn run(seed: u64, n: usize, out: &mut dyn Write) {
                 };
                 let input: Vec<u8> = stdin_lines(&mut rng, &sents);
                 let (st_r, _) = run_bin(&env, "reorder", &["-i".into(), p(&env, "sys.dic.zst"), "-o".into(), p(&env, "reordered")], Some(&input));
+                let mut counts: Option<(Vec<usize>, Vec<usize>)> = None;
                 let lib = guarded(|| -> Result<(Vec<u8>, Vec<u8>, Vec<u16>, Vec<u16>), ()> {
                     let d = Dictionary::read(&bytes[..]).map_err(|_| ())?;
                     let tokenizer = Tokenizer::new(d);
@@ -602,6 +638,7 @@ pub fn run(seed: u64, n: usize, out: &mut dyn Write) {
                         o
                     };
                     let ids = |v: &[(usize, f64)]| -> Vec<u16> { v.iter().map(|x| x.0 as u16).collect() };
+                    counts = vibrato::verif::connid_counts(&w);
                     Ok((render(&lp), render(&rp), ids(&lp), ids(&rp)))
                 });
                 if st_r != status_of(&lib) {
@@ -609,6 +646,22 @@ pub fn run(seed: u64, n: usize, out: &mut dyn Write) {
                 } else if let Some(Ok((lm, rm, lids, rids))) = lib {
                     if read(&env, "reordered.lmap") != lm || read(&env, "reordered.rmap") != rm {
                         diffs.push("reorder-files".to_string());
+                        // C13 on the program itself: the ids it wrote must list 1..n-1 once, by non-increasing frequency (the
+                        // number of connection-cost evaluations over the GIVEN sentences: the library's counter), ties ascending
+                        let file_ids = |name: &str| -> Vec<usize> {
+                            String::from_utf8_lossy(&read(&env, name)).lines().filter_map(|l| l.split('\t').next().and_then(|x| x.parse().ok())).collect()
+                        };
+                        let sorted_ok = |cnt: &Vec<usize>, ids: &Vec<usize>| -> bool {
+                            let n = cnt.len();
+                            ids.len() + 1 == n
+                                && (1..n).all(|i| ids.contains(&i))
+                                && ids.windows(2).all(|w| cnt[w[0]] > cnt[w[1]] || (cnt[w[0]] == cnt[w[1]] && w[0] < w[1]))
+                        };
+                        if let Some((cl, cr)) = &counts {
+                            if !sorted_ok(cl, &file_ids("reordered.lmap")) || !sorted_ok(cr, &file_ids("reordered.rmap")) {
+                                diffs.push("reorder-order-not-by-frequency".to_string());
+                            }
+                        }
                     }
                     // the files it wrote are a valid input of `map` (C13: always a valid mapping), with the library's result
                     let (st_m, _) = run_bin(&env, "map", &["-i".into(), p(&env, "sys.dic.zst"), "-m".into(), p(&env, "reordered"), "-o".into(), p(&env, "reordered.dic.zst")], None);
